@@ -140,10 +140,22 @@ func (m *valMem) Write(off uint32, v []byte) bool {
 
 // ---- behaviours --------------------------------------------------------------------
 
+// valSize is a request size; the specification writes sizes from 2^31 up as negative numbers (size - 2^32)
+type valSize uint32
+
+func (v *valSize) UnmarshalJSON(b []byte) error {
+	var x int64
+	if err := json.Unmarshal(b, &x); err != nil {
+		return err
+	}
+	*v = valSize(uint32(x))
+	return nil
+}
+
 type valStep struct {
 	O struct {
 		Op     string `json:"op"`
-		Size   uint32 `json:"size"`
+		Size   valSize `json:"size"`
 		U      uint64 `json:"u"`
 		B      uint64 `json:"b"`
 		Bu     uint64 `json:"bu"`
@@ -268,8 +280,8 @@ func TestVerifAllocator(t *testing.T) {
 			case "Allocate":
 				var ptr uint32
 				var err error
-				pm := vTry(func() { ptr, err = a.Allocate(mem, s.O.Size) })
-				res.Case(op, fmt.Sprintf("%s|%s|%d", cls, valSizeClass(s.O.Size), s.S.Nlive))
+				pm := vTry(func() { ptr, err = a.Allocate(mem, uint32(s.O.Size)) })
+				res.Case(op, fmt.Sprintf("%s|%s|%d", cls, valSizeClass(uint32(s.O.Size)), s.S.Nlive))
 				clsSeen[op+"/"+cls]++
 				res.Cmp()
 				if pm != "" {
@@ -290,10 +302,10 @@ func TestVerifAllocator(t *testing.T) {
 				}
 				// the real call succeeded: sentences of the property on the real pointer
 				p := uint64(ptr)
-				rounded := valRounded(s.O.Size)
+				rounded := valRounded(uint32(s.O.Size))
 				bad := ""
 				switch {
-				case s.O.Size > MaxPossibleAllocations:
+				case uint32(s.O.Size) > MaxPossibleAllocations:
 					bad = "oversize-accepted"
 				case p%8 != 0:
 					bad = "misaligned"
